@@ -141,6 +141,7 @@ theorem elem_comp_ok (types : List Elem) : ∀ fuel, ElemOK types fuel ∧ CompO
                 simp only [Except.ok.injEq, Prod.mk.injEq] at h
                 obtain ⟨rfl, rfl⟩ := h
                 have hcur : cur ≤ off := by
+                  unfold storedOffset at hoff
                   split at hoff
                   · split at hoff
                     · simp at hoff
@@ -178,6 +179,7 @@ theorem field_ok (types : List Elem) : ∀ (fields : List FieldDef) (cur total :
         · simp at h
         · rename_i off hoff
           have hcur : cur ≤ off := by
+            unfold storedOffset at hoff
             split at hoff
             · split at hoff
               · simp at hoff
